@@ -70,6 +70,48 @@ def run(res, proofs_ok, proofs_why):
             diffs.append({"case": ln, "impl": i, "model": m})
         if order != "RM":
             bad.append({"case": ln, "impl": i, "model": m, "why": ["now() read the clocks in order %s: a delay between the reads can then shrink the interval around the realtime reading" % order]})
+    # the same with a different delay before every read, and records whose as-of lies before, between and
+    # after the readings of the call.  Judged on what the statement promises, whatever reads the call makes:
+    # the interval is centred on a realtime reading of this call and is at least as wide as the record
+    # allows at the monotonic instant of that reading (a later monotonic reading only widens it).
+    vl, vm, vmeta = [], [], []
+    DS = [0, 1, 1000, 10 ** 6, NS_, 60 * NS_, 100 * NS_]
+    for k in range(300 if res.tier == "quick" else 30000):
+        mono = rng.randrange(10, 10 ** 6) * NS_ + rng.randrange(NS_)
+        real = rng.randrange(10 ** 9) * NS_ + rng.randrange(NS_)
+        ds = [rng.choice(DS) for _ in range(5)]
+        T = [0]
+        for d in ds:
+            T.append(T[-1] + d)
+        where = k % 4
+        if where == 0:
+            as_of = max(0, mono - rng.randrange(0, 900 * NS_))
+        elif where == 1:          # ahead of the first monotonic reading of the call, behind a later one
+            as_of = mono + T[1] + 1001 + rng.randrange(0, max(1, T[2] - T[1]))
+        elif where == 2:          # within the blur of the first monotonic reading
+            as_of = mono + T[1] + rng.randrange(0, 1001)
+        else:                     # ahead of everything the call can read
+            as_of = mono + T[-1] + 2000 + rng.randrange(NS_)
+        bound, drift = rng.randrange(10 ** 7), rng.choice([1000, 50000, 10 ** 6, 10 ** 8])
+        a, r, mo = K.ts(as_of), K.ts(real), K.ts(mono)
+        rec = "%d %d %d 0 %d %d %d" % (a[0], a[1], a[0] + 1000, bound, drift, rng.choice([1, 2]))
+        vl.append("ordv %s %d %d %d %d %d %s" % (rec, r[0], r[1], mo[0], mo[1], len(ds), " ".join(map(str, ds))))
+        m1 = K.ts(mono + T[1])
+        vm.append("cba %s %d %d %d %d" % (rec, r[0], r[1], m1[0], m1[1]))
+        vmeta.append((as_of, bound, drift, real, mono, T))
+    vimpl = c.run_lines(binary, vl)
+    vmodel = c.run_model(vm)
+    for ln, i, m, (as_of, bound, drift, real, mono, T) in zip(vl, vimpl, vmodel, vmeta):
+        res.evaluations += 1
+        res.nontriv(ln)
+        res.count("gen:varying delay before every read")
+        order, result = i.split(" ", 1)
+        client_orders.add(order[:2])
+        if result != m:
+            diffs.append({"case": ln, "impl": i, "model": m})
+        why = judge_ordv(ln, i)
+        if why:
+            bad.append({"case": ln, "impl": i, "model": m, "why": why})
     res.extra["measured_poller_order"] = sorted(orders)
     res.extra["measured_client_read_order"] = sorted(client_orders)
     # generated obligation
@@ -113,4 +155,34 @@ def replay(res, path):
         return 0 if "ORDER:ok" in i else 1
     i = c.run_lines(binary, [ln])[0]
     print("case %s\nimpl %s" % (ln, i))
+    if ln.startswith("ordv"):
+        why = judge_ordv(ln, i)
+        print("predicate: %s" % (why or "holds"))
+        return 1 if why else 0
     return 0 if i.startswith("RM") else 1
+
+
+def judge_ordv(ln, i):
+    """centred on a realtime reading of the call, and no narrower than the record allows at that instant"""
+    t = [int(x) for x in ln.split()[1:]]
+    as_of, bound, drift = t[0] * NS_ + t[1], t[4], t[5]
+    real, mono = t[7] * NS_ + t[8], t[9] * NS_ + t[10]
+    T = [0]
+    for d in t[12:12 + t[11]]:
+        T.append(T[-1] + d)
+    order, result = i.split(" ", 1)
+    r = K.parse_result(result)
+    if r["kind"] != "ok":
+        return []
+    e, l = r["e"], r["l"]
+    Ts = T + [T[-1]] * max(0, len(order) - len(T))
+    ks = [j for j, ch in enumerate(order) if ch == "R" and 2 * (real + Ts[j]) == e + l]
+    if not ks:
+        return ["the interval [%d, %d] is not centred on any realtime reading of this call (reads %s at offsets %s)" % (e, l, order, Ts[:len(order)])]
+    j = ks[0]
+    need = bound + (max(0, mono + Ts[j] - as_of) * drift) // NS_
+    if (l - e) // 2 + 1 < need:
+        return ["the interval is centred on the realtime reading taken %d ns into the call (reads: %s at %s) but is only %d ns wide on each side: at that instant the record "
+                "allows no less than %d ns (bound %d + drift %d ppb x age %d ns): the monotonic reading used was taken before the realtime one, so the delay between them shrank the bound"
+                % (Ts[j], order, Ts[:len(order)], (l - e) // 2, need, bound, drift, max(0, mono + Ts[j] - as_of))]
+    return []
